@@ -474,6 +474,9 @@ def run(program, rep, tier):
     n0 = len(rep.obs)
     c11.check_setitem(program, rep)
     c11.check_chainmap(program, rep)
+    # the conflict test of the populator reads the map through get(): a
+    # handle that is present must be found whatever its truth value
+    c11.check_lookup(program, rep)
     for o in rep.obs[n0:]:
         o.rule = o.rule.replace('C11.', 'C16.layers-')
 
